@@ -17,6 +17,9 @@ CHECKS.update({
  "C04": ("fault_enumeration","per-token execution counters + proxy frame log under enumerated faults",
    "Same fault enumeration as C03 plus fault-free ws/http/custom lanes and HTTP byte-position cuts; handler entry counters per unique call token and request frames per token seen by the proxy are compared with what each caller received (at-most-once, exactly-once on answer, notifications id-less/response-less, no library-initiated re-send). A retry-tagged contrast lane proves the re-send monitor can see re-sends.",
    "Tokens travel in params; execution = entry into the handler method.","2/C04"),
+ "C05": ("fault_enumeration","outage scripts through the fault proxy + bounded-progress and spacing monitors on redial hook events",
+   "Outage scripts (fault kind x number of refused redials up to 150 x backoff x reconnect/no-reconnect x error mapping x second fault right after the redial x idle-after-reconnect) with retry-tagged and untagged calls in flight and issued while the client is parked at the redial hook. Recovery is judged as bounded progress, retry-tagged calls must return their own token, untagged ones must surface an (optionally typed) error, consecutive redial hook events must be at least 0.9*minDelay apart (load cannot falsify a lower bound on sleeps), accepts at the proxy are bounded, and a no-reconnect client must never redial.",
+   "Eventually = bounded progress (3*(k+2)*maxBackoff + 8 s); only the minimum spacing is asserted, not the growth curve.","2/C05"),
 })
 NA={}
 def main():
